@@ -7,6 +7,18 @@ The analyses reason about attribute reads and writes. Two reflective idioms hide
 The second is applied only when the loop iterates a literal tuple/list of string constants, has no else clause, and its
 body contains no break/continue (return is fine) and does not assign the loop variable; the unrolled copies keep the
 line numbers of the original statements.  Dynamic uses (getattr(obj, fmt.map(k))) are left alone.
+
+A third rewrite removes a layout difference of newer Python:
+  * if (x := e) ...: / return (x := e) ... / y = (x := e) ...   with the assignment expression in the position that is
+    evaluated first and unconditionally                      -> x = e; if x ...: / return x ... / y = x ...
+  * while (x := e) ...: body      -> x = e; while x ...: body; x = e     (x = e also before every `continue` of that loop)
+  * a, *b = s.split(sep)  /  a, *b = name                 -> a = <src>[0]; b = <src>[1:]   (str.split never returns an empty list;
+    for a name the slice keeps the kind of the sequence, which only matters for tuples - restricted to split results)
+Assignment expressions elsewhere (right operand of and/or, comprehensions) are left alone.
+  * if A and (x := e) ...: body  (no else branch)          -> if A: x = e; if x ...: body
+  * a, b = os.path.split(p) / os.path.splitext(p)  (p built from names and os.path calls)   -> a = <call>[0]; b = <call>[1]
+  * a, b = x, y  (names on the left, no left name read by a later right side)   -> a = x; b = y
+  * a = b = v    (names only)                                                    -> a = v; b = a   (b = v for a plain name/constant v)
 """
 import ast
 import copy
@@ -77,7 +89,193 @@ def _loop_unrollable(st):
     return uses_reflect
 
 
+_LEADING_FIELD = {ast.Compare: "left", ast.UnaryOp: "operand", ast.BinOp: "left", ast.Attribute: "value", ast.Subscript: "value",
+                  ast.IfExp: "test", ast.Call: "func", ast.Starred: "value"}
+
+
+def _hoist_leading_walrus(e):
+    """(expression with the leading assignment expression replaced by its target, that NamedExpr) or (e, None).
+    Leading = the sub-expression evaluated first and unconditionally."""
+    if isinstance(e, ast.NamedExpr):
+        return ast.copy_location(ast.Name(id=e.target.id, ctx=ast.Load()), e), e
+    field = _LEADING_FIELD.get(type(e))
+    if field is not None:
+        new, named = _hoist_leading_walrus(getattr(e, field))
+        if named is not None:
+            setattr(e, field, new)
+        return e, named
+    if isinstance(e, ast.BoolOp) and e.values:
+        new, named = _hoist_leading_walrus(e.values[0])
+        if named is not None:
+            e.values[0] = new
+        return e, named
+    if isinstance(e, (ast.Tuple, ast.List)) and e.elts:
+        new, named = _hoist_leading_walrus(e.elts[0])
+        if named is not None:
+            e.elts[0] = new
+        return e, named
+    return e, None
+
+
+def _walrus_assign(named, at):
+    a = ast.Assign(targets=[ast.Name(id=named.target.id, ctx=ast.Store())], value=named.value, lineno=at.lineno)
+    return ast.copy_location(a, at)
+
+
 class Normaliser(ast.NodeTransformer):
+    def __init__(self, tree=None):
+        # spellings of the os.path module and of its functions in this file
+        self.path_mods = set(["os.path"])
+        self.path_funcs = {}
+        for n in ast.walk(tree) if tree is not None else ():
+            if isinstance(n, ast.Import):
+                for a in n.names:
+                    if a.name == "os.path" and a.asname:
+                        self.path_mods.add(a.asname)
+                    if a.name in ("posixpath", "ntpath"):
+                        self.path_mods.add(a.asname or a.name)
+            elif isinstance(n, ast.ImportFrom) and n.level == 0:
+                for a in n.names:
+                    if n.module == "os" and a.name == "path":
+                        self.path_mods.add(a.asname or "path")
+                    if n.module in ("os.path", "posixpath", "ntpath"):
+                        self.path_funcs[a.asname or a.name] = a.name
+
+    def _path_func(self, fn):
+        """name of the os.path function the callee expression denotes, or None"""
+        if isinstance(fn, ast.Name):
+            return self.path_funcs.get(fn.id)
+        if isinstance(fn, ast.Attribute) and ast.unparse(fn.value) in self.path_mods:
+            return fn.attr
+        return None
+
+    def _pure_path_expr(self, e, depth=0):
+        if _simple(e):
+            return True
+        if isinstance(e, ast.Call) and depth < 4 and not e.keywords and self._path_func(e.func) in \
+                ("dirname", "basename", "join", "split", "splitext", "normpath", "abspath"):
+            return all(self._pure_path_expr(a, depth + 1) for a in e.args)
+        if isinstance(e, ast.Subscript) and isinstance(e.slice, ast.Constant):
+            return self._pure_path_expr(e.value, depth + 1)
+        return False
+
+    def _is_path_pair_call(self, v):
+        return isinstance(v, ast.Call) and self._path_func(v.func) in ("split", "splitext") and len(v.args) == 1 and not v.keywords \
+            and self._pure_path_expr(v.args[0])
+
+    def _hoisted(self, st, field):
+        """statement list: leading assignment expressions of st.<field> turned into assignments before st"""
+        pre = []
+        for _ in range(4):
+            e = getattr(st, field, None)
+            if e is None:
+                break
+            new, named = _hoist_leading_walrus(e)
+            if named is None:
+                break
+            setattr(st, field, new)
+            pre.append(_walrus_assign(named, st))
+        return pre
+
+    def visit_If(self, st):
+        # if A and (x := e) ...: body   (no else)   ->   if A: x = e; if x ...: body
+        t = st.test
+        if not st.orelse and isinstance(t, ast.BoolOp) and isinstance(t.op, ast.And):
+            for i, v in enumerate(t.values):
+                if i == 0:
+                    continue
+                probe, named = _hoist_leading_walrus(copy.deepcopy(v))
+                if named is None:
+                    continue
+                if any(isinstance(y, ast.NamedExpr) for w in t.values[:i] for y in ast.walk(w)) and i > 1:
+                    break
+                outer_test = t.values[0] if i == 1 else ast.copy_location(ast.BoolOp(op=ast.And(), values=t.values[:i]), t)
+                rest = t.values[i:]
+                inner_test = rest[0] if len(rest) == 1 else ast.copy_location(ast.BoolOp(op=ast.And(), values=rest), t)
+                inner = ast.copy_location(ast.If(test=inner_test, body=st.body, orelse=[]), st)
+                outer = ast.copy_location(ast.If(test=outer_test, body=[inner], orelse=[]), st)
+                return self.visit(outer)
+        pre = self._hoisted(st, "test")
+        st = self.generic_visit(st)
+        if not pre:
+            return st
+        return [self.visit(a) for a in pre] + [st]
+
+    def visit_While(self, st):
+        new, named = _hoist_leading_walrus(st.test)
+        if named is None or st.orelse:
+            return self.generic_visit(st)
+        st.test = new
+
+        def add_before_continue(stmts):
+            out = []
+            for b in stmts:
+                if isinstance(b, ast.Continue):
+                    out.append(_walrus_assign(copy.deepcopy(named), b))
+                elif isinstance(b, (ast.If, ast.With, ast.Try)):
+                    for fld in ("body", "orelse", "finalbody"):
+                        if getattr(b, fld, None):
+                            setattr(b, fld, add_before_continue(getattr(b, fld)))
+                    for h in getattr(b, "handlers", []):
+                        h.body = add_before_continue(h.body)
+                out.append(b)
+            return out
+        st.body = add_before_continue(st.body) + [_walrus_assign(copy.deepcopy(named), st.body[-1])]
+        st = self.generic_visit(st)
+        return [self.visit(_walrus_assign(named, st)), st]
+
+    def visit_Return(self, st):
+        pre = self._hoisted(st, "value")
+        st = self.generic_visit(st)
+        return ([self.visit(a) for a in pre] + [st]) if pre else st
+
+    def visit_Assign(self, st):
+        t = st.targets[0] if len(st.targets) == 1 else None
+        v = st.value
+        if isinstance(t, ast.Tuple) and len(t.elts) == 2 and isinstance(t.elts[0], ast.Name) and isinstance(t.elts[1], ast.Starred) \
+                and isinstance(t.elts[1].value, ast.Name) and isinstance(v, ast.Call) and isinstance(v.func, ast.Attribute) \
+                and v.func.attr == "split" and len(v.args) == 1 and isinstance(v.args[0], ast.Constant) and not v.keywords \
+                and isinstance(v.func.value, ast.Name) and v.func.value.id not in (t.elts[0].id, t.elts[1].value.id):
+            first = ast.Assign(targets=[ast.Name(id=t.elts[0].id, ctx=ast.Store())],
+                               value=ast.Subscript(value=copy.deepcopy(v), slice=ast.Constant(value=0), ctx=ast.Load()), lineno=st.lineno)
+            rest = ast.Assign(targets=[ast.Name(id=t.elts[1].value.id, ctx=ast.Store())],
+                              value=ast.Subscript(value=copy.deepcopy(v), slice=ast.Slice(lower=ast.Constant(value=1)), ctx=ast.Load()),
+                              lineno=st.lineno)
+            return [ast.copy_location(first, st), ast.copy_location(rest, st)]
+        if isinstance(t, (ast.Tuple, ast.List)) and len(t.elts) == 2 and all(isinstance(e, ast.Name) for e in t.elts) \
+                and t.elts[0].id != t.elts[1].id and self._is_path_pair_call(v) \
+                and not any(isinstance(y, ast.Name) and y.id in (t.elts[0].id, t.elts[1].id) for y in ast.walk(v)):
+            out = []
+            for i, e in enumerate(t.elts):
+                sub = ast.Subscript(value=copy.deepcopy(v), slice=ast.Constant(value=i), ctx=ast.Load())
+                out.append(ast.copy_location(ast.Assign(targets=[ast.Name(id=e.id, ctx=ast.Store())], value=sub, lineno=st.lineno), st))
+            return out
+        if isinstance(t, (ast.Tuple, ast.List)) and isinstance(v, (ast.Tuple, ast.List)) and len(t.elts) == len(v.elts) >= 2 \
+                and all(isinstance(e, ast.Name) for e in t.elts) and not any(isinstance(e, ast.Starred) for e in v.elts):
+            names = [e.id for e in t.elts]
+            clash = any(isinstance(y, ast.Name) and y.id in names[:j] for j, ve in enumerate(v.elts) for y in ast.walk(ve))
+            if not clash and len(set(names)) == len(names):
+                out = []
+                for e, ve in zip(t.elts, v.elts):
+                    a = ast.copy_location(ast.Assign(targets=[ast.Name(id=e.id, ctx=ast.Store())], value=ve, lineno=st.lineno), st)
+                    r = self.visit(a)
+                    out.extend(r if isinstance(r, list) else [r])
+                return out
+        if len(st.targets) >= 2 and all(isinstance(x, ast.Name) for x in st.targets) and len(set(x.id for x in st.targets)) == len(st.targets):
+            first = st.targets[0].id
+            out = []
+            r = self.visit(ast.copy_location(ast.Assign(targets=[ast.Name(id=first, ctx=ast.Store())], value=v, lineno=st.lineno), st))
+            out.extend(r if isinstance(r, list) else [r])
+            for x in st.targets[1:]:
+                again = _simple(v) and not any(isinstance(y, ast.Name) and y.id in [z.id for z in st.targets] for y in ast.walk(v))
+                out.append(ast.copy_location(ast.Assign(targets=[ast.Name(id=x.id, ctx=ast.Store())],
+                                                        value=copy.deepcopy(v) if again else ast.Name(id=first, ctx=ast.Load()),
+                                                        lineno=st.lineno), st))
+            return out
+        pre = self._hoisted(st, "value") if all(isinstance(t, ast.Name) for t in st.targets) else []
+        st = self.generic_visit(st)
+        return ([self.visit(a) for a in pre] + [st]) if pre else st
+
     def _block(self, stmts):
         out = []
         for st in stmts:
@@ -158,6 +356,6 @@ class Normaliser(ast.NodeTransformer):
 
 
 def normalise(tree):
-    tree = Normaliser().visit(tree)
+    tree = Normaliser(tree).visit(tree)
     ast.fix_missing_locations(tree)
     return tree
